@@ -115,6 +115,11 @@ class Gen:
             if shape > 0.7:
                 # a mutable object inside an immutable container
                 d["span"] = ([self.r.randint(0, 3)], "closed")
+            if self.r.random() < 0.3:
+                # every value hashable, one of them mutable (a user-defined object with state)
+                from .labels import Box
+                d = {k: v for k, v in d.items() if k not in ("tags", "meta", "span")}
+                d["trace"] = Box([self.r.randint(0, 3)])
         return d
 
     def mtype(self):
@@ -440,6 +445,8 @@ class Gen:
     # ---------------------------------------------------------- SimplicialComplex
     def _simplex(self, m, big=False, allow_empty=False):
         hi = 6 if big else 4
+        if self.profile == "large" and self.r.random() < 0.3:
+            hi = 10  # a 10-node simplex has 1012 faces of two or more nodes
         lo = 0 if (allow_empty and self.r.random() < 0.04) else 1
         mem = self.members(m, lo, hi, 0.5)
         if m.edges and self.r.random() < 0.2:
@@ -466,6 +473,15 @@ class Gen:
                 if self.r.random() < 0.15 and used:
                     idx = self.r.choice(used)
                 used.append(idx)
+            items.append([mem, idx, self.attr(0.7, single=True) if fmt in (3, 4) else None])
+        if items and len(items[-1][0]) >= 2 and self.r.random() < 0.25:
+            # an overlapping simplex that lists two shared nodes in the opposite order
+            prev = items[-1][0]
+            a, b = self.r.sample(prev, 2)
+            mem = [b, a] if prev.index(a) < prev.index(b) else [a, b]
+            mem.append(self.pick_node(m, 0.3))
+            mem = [x for i, x in enumerate(mem) if x not in mem[:i]]
+            idx = self.new_idx(m) if fmt in (2, 4, 5) else None
             items.append([mem, idx, self.attr(0.7, single=True) if fmt in (3, 4) else None])
         return items
 
